@@ -518,8 +518,8 @@ def identity_facts(frame):
     return out
 
 
-def run_forced(calls, points, order, occurrences=None, wait=20.0):
-    """Run calls[i] in thread i; thread i is split at its touch point points[i] into two segments;
+def run_forced_settrace(calls, points, order, occurrences=None, wait=20.0):
+    """(fallback for interpreters without sys.monitoring) Run calls[i] in thread i; thread i is split at its touch point points[i] into two segments;
     `order` lists thread ids, one entry per segment.  Deterministic: one thread runs at a time."""
     n = len(calls)
     occurrences = occurrences or [1] * n
@@ -549,6 +549,268 @@ def run_forced(calls, points, order, occurrences=None, wait=20.0):
         t.join(max(0.0, deadline - time.time()))
     return {'results': results, 'reached': reached, 'broken': sched.broken,
             'hung': [i for i, t in enumerate(ths) if t.is_alive()], 'facts': facts}
+
+
+def find_codes(name, suffix):
+    """The code objects of the functions called `name` (co_name, or co_qualname when dotted) defined
+    in loaded hl7apy modules whose file ends with `suffix`."""
+    out = []
+    by_qual = '.' in name
+    for mn, m in hl7_modules():
+        if not (getattr(m, '__file__', '') or '').endswith(suffix):
+            continue
+        for v in list(vars(m).values()):
+            cands = []
+            if isinstance(v, types.FunctionType):
+                cands.append(v)
+            elif isinstance(v, type) and v.__module__ == mn:
+                for cv in list(vars(v).values()):
+                    f2 = cv.__func__ if isinstance(cv, (staticmethod, classmethod)) else cv
+                    if isinstance(f2, types.FunctionType):
+                        cands.append(f2)
+            for fn in cands:
+                code = fn.__code__
+                if ((code.co_qualname == name) if by_qual else (code.co_name == name)) and code not in out:
+                    out.append(code)
+    return out
+
+
+MON_TOOL = 4
+
+
+class TouchMonitor(object):
+    """sys.monitoring (CPython >= 3.12): events are enabled ONLY on the code objects of the touch
+    point functions, so the rest of the call (and the import of the big table modules) runs at full
+    speed.  Each thread registers the touch point it has to be parked at."""
+
+    def __init__(self, points):
+        self.mon = sys.monitoring
+        self.by_thread = {}
+        self.codes = {}
+        for p in set(points):
+            name, suffix, trig = TOUCH[p]
+            self.codes[p] = set(find_codes(name, suffix))
+        self.all_codes = set().union(*self.codes.values()) if self.codes else set()
+
+    def start(self):
+        E = self.mon.events
+        self.mon.use_tool_id(MON_TOOL, 'c19')
+        self.mon.register_callback(MON_TOOL, E.PY_START, self.on_start)
+        self.mon.register_callback(MON_TOOL, E.LINE, self.on_line)
+        self.mon.register_callback(MON_TOOL, E.PY_RETURN, self.on_return)
+        self.mon.register_callback(MON_TOOL, E.PY_UNWIND, self.on_unwind)
+        for c in self.all_codes:
+            self.mon.set_local_events(MON_TOOL, c, E.PY_START | E.LINE | E.PY_RETURN)
+        self.mon.set_events(MON_TOOL, 0)
+
+    def stop(self):
+        E = self.mon.events
+        for c in self.all_codes:
+            try:
+                self.mon.set_local_events(MON_TOOL, c, 0)
+            except Exception:  # noqa
+                pass
+        for ev in (E.PY_START, E.LINE, E.PY_RETURN, E.PY_UNWIND):
+            self.mon.register_callback(MON_TOOL, ev, None)
+        self.mon.free_tool_id(MON_TOOL)
+
+    def register(self, point, occurrence, on_reach, facts):
+        self.by_thread[threading.get_ident()] = {'point': point, 'trig': TOUCH[point][2], 'codes': self.codes[point],
+                                                 'occ': occurrence, 'count': 0, 'done': False,
+                                                 'on_reach': on_reach, 'facts': facts, 'frames': set()}
+
+    def unregister(self):
+        self.by_thread.pop(threading.get_ident(), None)
+
+    def _state(self, code):
+        st = self.by_thread.get(threading.get_ident())
+        if st is None or st['done'] or code not in st['codes']:
+            return None
+        return st
+
+    def _hit(self, st, frame):
+        st['count'] += 1
+        if st['count'] == st['occ']:
+            st['done'] = True
+            st['facts'].append(identity_facts(frame))
+            st['on_reach']()
+
+    def on_start(self, code, offset):
+        st = self._state(code)
+        if st is not None and st['trig'][0] == 'call':
+            self._hit(st, sys._getframe(1))
+
+    def on_line(self, code, line):
+        st = self._state(code)
+        if st is not None and st['trig'][0] == 'local':
+            fr = sys._getframe(1)
+            if id(fr) not in st['frames'] and st['trig'][1] in fr.f_locals:
+                st['frames'].add(id(fr))
+                self._hit(st, fr)
+
+    def on_return(self, code, offset, retval):
+        st = self._state(code)
+        if st is None:
+            return
+        fr = sys._getframe(1)
+        if st['trig'][0] == 'return':
+            self._hit(st, fr)
+        elif st['trig'][0] == 'local' and id(fr) not in st['frames'] and st['trig'][1] in fr.f_locals:
+            st['frames'].add(id(fr))
+            self._hit(st, fr)
+        st['frames'].discard(id(fr))
+
+    def on_unwind(self, code, offset, exc):
+        pass
+
+
+def run_forced(calls, points, order, occurrences=None, wait=20.0):
+    """Run calls[i] in thread i; thread i is split at its touch point points[i] into two segments;
+    `order` lists thread ids, one entry per segment.  Deterministic: one thread runs at a time."""
+    if not hasattr(sys, 'monitoring'):
+        return run_forced_settrace(calls, points, order, occurrences, wait)
+    n = len(calls)
+    occurrences = occurrences or [1] * n
+    sched = Sched(order, wait)
+    results = [None] * n
+    reached = [False] * n
+    facts = [[] for _ in range(n)]
+    mon = TouchMonitor(points)
+    mon.start()
+
+    def target(i):
+        sched.wait_turn(i)
+
+        def on_reach():
+            reached[i] = True
+            sched.yield_(i)
+        mon.register(points[i], occurrences[i], on_reach, facts[i])
+        try:
+            results[i] = do_call(calls[i])
+        finally:
+            mon.unregister()
+            sched.finish(i)
+    ths = [threading.Thread(target=target, args=(i,), daemon=True) for i in range(n)]
+    try:
+        for t in ths:
+            t.start()
+        deadline = time.time() + 4 * wait
+        for t in ths:
+            t.join(max(0.0, deadline - time.time()))
+    finally:
+        mon.stop()
+    return {'results': results, 'reached': reached, 'broken': sched.broken,
+            'hung': [i for i, t in enumerate(ths) if t.is_alive()], 'facts': facts}
+
+
+def cross_version_imports():
+    """(version package that imports, package it imports from, how many of its source lines mention
+    it) read from the __init__.py files of the version packages of the repository under test."""
+    out = []
+    base = os.path.join(REPO, 'hl7apy')
+    for d in sorted(os.listdir(base)):
+        f = os.path.join(base, d, '__init__.py')
+        if not d.startswith('v2_') or not os.path.exists(f):
+            continue
+        lines = [l for l in open(f).read().split('\n') if not l.lstrip().startswith('#')]
+        others = {}
+        for l in lines:
+            for m in re.finditer(r'\bv2_\d+(?:_\d+)*\b', l):
+                if m.group(0) != d:
+                    others.setdefault(m.group(0), 0)
+            for o in others:
+                if re.search(r'\b%s\b' % o, l):
+                    others[o] += 1
+        for o, n in sorted(others.items()):
+            out.append((d, o, n))
+    return out
+
+
+def pkg_version(pkg):
+    return pkg[1:].replace('_', '.')
+
+
+def import_probe_worker(job):
+    """Regression probe for the import-lock order: thread X starts importing package `xpkg` and is
+    held inside importlib._find_spec (it owns the module lock, the module is not yet in sys.modules);
+    thread Y, which is executing `ypkg/__init__.py`, then runs its nth line that mentions xpkg."""
+    import importlib._bootstrap as boot
+    import linecache
+    mon = sys.monitoring
+    E = mon.events
+    xname = 'hl7apy.' + job['xpkg']
+    ysuffix = os.path.join(job['ypkg'], '__init__.py')
+    evX, evY = threading.Event(), threading.Event()
+    state = {'x_reached': False, 'y_reached': False, 'n': 0, 'ycode': None}
+    ids = {}
+    fs_code = boot._find_spec.__code__
+
+    def on_start(code, offset):
+        if code is fs_code:
+            if threading.get_ident() == ids.get('x') and not state['x_reached'] and \
+                    sys._getframe(1).f_locals.get('name') == xname:
+                state['x_reached'] = True
+                evX.set()
+                time.sleep(0.7)
+            return None
+        if code.co_name == '<module>' and code.co_filename.endswith(ysuffix):
+            state['ycode'] = code
+            mon.set_local_events(MON_TOOL, code, E.LINE)
+            return None
+        return mon.DISABLE
+
+    def on_line(code, line):
+        if code is not state['ycode'] or threading.get_ident() != ids.get('y') or state['y_reached']:
+            return None
+        src = linecache.getline(code.co_filename, line)
+        if re.search(r'\b%s\b' % job['xpkg'], src) and not src.lstrip().startswith('#'):
+            if state['n'] == job['nth']:
+                state['y_reached'] = True
+                evY.set()
+                evX.wait(15)
+            state['n'] += 1
+        return None
+    results = [None, None]
+
+    def X():
+        ids['x'] = threading.get_ident()
+        evY.wait(30)
+        try:
+            results[0] = do_call(job['x'])
+        finally:
+            evX.set()
+
+    def Y():
+        ids['y'] = threading.get_ident()
+        results[1] = do_call(job['y'])
+        evY.set()
+    mon.use_tool_id(MON_TOOL, 'c19probe')
+    mon.register_callback(MON_TOOL, E.PY_START, on_start)
+    mon.register_callback(MON_TOOL, E.LINE, on_line)
+    mon.set_events(MON_TOOL, E.PY_START)
+    ths = [threading.Thread(target=X, daemon=True), threading.Thread(target=Y, daemon=True)]
+    try:
+        for t in ths:
+            t.start()
+        for t in ths:
+            t.join(90)
+    finally:
+        mon.set_events(MON_TOOL, 0)
+        mon.free_tool_id(MON_TOOL)
+    return {'results': results, 'x_reached': state['x_reached'], 'y_reached': state['y_reached'],
+            'hung': [i for i, t in enumerate(ths) if t.is_alive()]}
+
+
+def import_probe_plan():
+    jobs = []
+    if not hasattr(sys, 'monitoring'):
+        return jobs
+    for ypkg, xpkg, n in cross_version_imports():
+        vx, vy = pkg_version(xpkg), pkg_version(ypkg)
+        for nth in range(n):
+            jobs.append({'xpkg': xpkg, 'ypkg': ypkg, 'nth': nth,
+                         'x': ['factory', 'NM', '12.5', vx, STRICT], 'y': ['factory', 'NM', '12.5', vy, STRICT]})
+    return jobs
 
 
 def forced_worker(job):
@@ -1148,7 +1410,7 @@ def forced_plan(run, corpus):
          ['escape', '2.7', 'ST', 'ab|cd^ef!gh@i', [[5, 6], [0, 1]], 'default']],
         [['segment', 'OBX|1|NM|GLU||12.5', '2.5', STRICT], ['parse', texts['2.5']['alt'], TOLERANT, True]],
     ]
-    for _ in range(6 if not run.thorough else 40):
+    for _ in range(24 if not run.thorough else 120):
         a, b = rng.choice(corpus), rng.choice(corpus)
         if key_of(a) != key_of(b):
             pairs.append([a, b])
@@ -1156,7 +1418,7 @@ def forced_plan(run, corpus):
     orders2 = [list(o) for o in interleavings(2)]
     for a, b in pairs:
         pa_all = points_for(a)
-        npts = len(pa_all) if run.thorough else min(3, len(pa_all))
+        npts = len(pa_all) if run.thorough else min(4, len(pa_all))
         for pa in pa_all[:npts]:
             pb_all = points_for(b)
             pb = pa if pa in pb_all else rng.choice(pb_all)
@@ -1174,7 +1436,7 @@ def forced_plan(run, corpus):
         ([['load', '2.5'], ['load', '2.5'], F('ST', 'x', '2.5', STRICT)], ['load:named'] * 3, True),
     ]
     for calls, pts, cold in triples:
-        os3 = orders3 if run.thorough else rng.sample(orders3, 12 if not cold else 8)
+        os3 = orders3 if run.thorough else rng.sample(orders3, 30 if not cold else 15)
         exps = [{'calls': calls, 'points': pts, 'order': o} for o in os3]
         if cold:
             jobs += [{'exps': [e]} for e in exps]
@@ -1208,6 +1470,12 @@ class Compare(object):
             if sig in self.reported and len(self.reported) > 3:
                 return
             self.reported.add(sig)
+            if isinstance(got, list) and got[:1] == ['exc'] and '_DeadlockError' in str(got[1]):
+                self.run.fail('concurrent-import-deadlock',
+                              'a call run while another thread was importing a version library raised the import '
+                              "system's _DeadlockError instead of returning what it returns alone",
+                              call=d, mode=mode, got_exception=got[1], expected=exp, got=got, context=context)
+                return
             self.run.fail('concurrent-result-differs',
                           'a call run concurrently returned something else than the same call run alone',
                           call=d, mode=mode, expected=exp, got=got, context=context)
@@ -1281,11 +1549,12 @@ def main(argv=None):
     # ---- the same call run alone
     extra = []
     fjobs = forced_plan(run, corpus)
-    for j in fjobs:
-        for e in j['exps']:
-            for d in e['calls']:
-                if key_of(d) not in set(keys) and key_of(d) not in {key_of(x) for x in extra}:
-                    extra.append(d)
+    known_keys = set(keys)
+    for d in [d for j in fjobs for e in j['exps'] for d in e['calls']] + \
+            [d for j in import_probe_plan() for d in (j['x'], j['y'])]:
+        if key_of(d) not in known_keys:
+            known_keys.add(key_of(d))
+            extra.append(d)
     everything = corpus + extra
     res = fork_map(everything, do_call, timeout=120)
     alone = {}
@@ -1311,9 +1580,23 @@ def main(argv=None):
         cold_jobs.append({'threads': stress_assignments(run, corpus, n, 5 if not run.thorough else 8),
                           'timeout': 120})
     t0 = time.time()
-    both = fork_map([('cold', j) for j in cold_jobs] + [('forced', j) for j in fjobs],
-                    lambda kj: cold_worker(kj[1]) if kj[0] == 'cold' else forced_worker(kj[1]), timeout=240)
-    cold_res, forced_res = both[:len(cold_jobs)], both[len(cold_jobs):]
+    pjobs = import_probe_plan()
+    workers = {'cold': cold_worker, 'forced': forced_worker, 'probe': import_probe_worker}
+    both = fork_map([('cold', j) for j in cold_jobs] + [('forced', j) for j in fjobs] + [('probe', j) for j in pjobs],
+                    lambda kj: workers[kj[0]](kj[1]), timeout=240)
+    cold_res, forced_res = both[:len(cold_jobs)], both[len(cold_jobs):len(cold_jobs) + len(fjobs)]
+    probe_res = both[len(cold_jobs) + len(fjobs):]
+    n_probe = 0
+    for j, (st, val) in zip(pjobs, probe_res):
+        if st != 'ok' or val['hung']:
+            infra.append('import-order probe %s/%s did not finish (%s)' % (j['ypkg'], j['xpkg'], st))
+            continue
+        if not val['y_reached']:
+            continue
+        n_probe += 1
+        for d, got in zip((j['x'], j['y']), val['results']):
+            cmp.concurrent_keys.add(key_of(d))
+            cmp.check(d, got, 'forced-import', {'probe': j, 'x_reached': val['x_reached'], 'others': [j['x'], j['y']]})
     n_conc_calls = 0
     hang_jobs = []
     for j, (st, val) in zip(cold_jobs, cold_res):
@@ -1399,8 +1682,8 @@ def main(argv=None):
 
     # ---- warm stress in this process
     t0 = time.time()
-    n_warm = 14 if not run.thorough else 90
-    budget = 35 if not run.thorough else 200
+    n_warm = 40 if not run.thorough else 160
+    budget = 25 if not run.thorough else 150
     warm_done = 0
     for r in range(n_warm):
         if time.time() - t0 > budget:
@@ -1450,6 +1733,8 @@ def main(argv=None):
         'cold_rounds': len(cold_jobs),
         'warm_rounds': warm_done,
         'forced_experiments': n_forced,
+        'import_order_probes': n_probe,
+        'cross_version_imports': [list(x) for x in cross_version_imports()],
         'touch_points_reached': {p: {'experiments': v[0], 'reached': v[1]} for p, v in sorted(reach.items())},
         'concurrent_comparisons': cmp.compared,
         'concurrent_differences': len(cmp.failing),
@@ -1468,7 +1753,7 @@ def replay(run):
     import hl7apy.core, hl7apy.parser, hl7apy.validation, hl7apy.factories  # noqa
     d = inp.get('call')
     n = 0
-    if kind == 'concurrent-result-differs' and d is not None:
+    if kind in ('concurrent-result-differs', 'concurrent-import-deadlock') and d is not None:
         (st, exp), = fork_map([d], do_call, timeout=120)
         alone = {key_of(d): exp} if st == 'ok' else {}
         cmp = Compare(run, alone)
@@ -1484,6 +1769,17 @@ def replay(run):
                 for i, x in enumerate(e['calls']):
                     n += 1
                     cmp.check(x, val[0]['results'][i], 'forced', {'schedule': e})
+        elif mode == 'forced-import':
+            j = inp['context']['probe']
+            for x in (j['x'], j['y']):
+                (s2, v2), = fork_map([x], do_call, timeout=120)
+                if s2 == 'ok':
+                    alone[key_of(x)] = v2
+            (st, val), = fork_map([j], import_probe_worker, timeout=240)
+            if st == 'ok':
+                for x, got in zip((j['x'], j['y']), val['results']):
+                    n += 1
+                    cmp.check(x, got, 'forced-import', {'probe': j})
         elif mode == 'sequence':
             (st, val), = fork_map([0], lambda _: [do_call(inp['first']), do_call(d)], timeout=120)
             n += 1
